@@ -23,6 +23,8 @@ def parseItem (it : String) : Option Item :=
   | 'u' :: u => some (.load .use (u.map Char.toNat) false)
   | 'f' :: u => some (.load .forward (u.map Char.toNat) false)
   | 'l' :: u => some (.load .loadCss (u.map Char.toNat) false)
+  | 'U' :: u => some (.loadWith .use (u.map Char.toNat))
+  | 'F' :: u => some (.loadWith .forward (u.map Char.toNat))
   | 'b' :: r =>
     match (String.ofList r).splitOn "." with
     | [k, t] => match k.toNat?, t.toNat? with
@@ -66,7 +68,9 @@ def quirksOf (qs : List String) : LoadQuirks :=
     candidateMajor := qs.contains "candidateMajor",
     normalizeKeepsEmpty := qs.contains "normalizeKeepsEmpty",
     importFreshCache := qs.contains "importFreshCache",
-    forwardingModuleCopied := qs.contains "forwardingModuleCopied" }
+    forwardingModuleCopied := qs.contains "forwardingModuleCopied",
+    reconfigureIgnored := qs.contains "reconfigureIgnored",
+    dirUrlKeepsSlash := qs.contains "dirUrlKeepsSlash" }
 
 def showCall (c : Call) : String := toString' c.url ++ (if c.hit then "+" else "-")
 
